@@ -24,12 +24,12 @@ class Layout(object):
             self.DATA_RO = 0x21000      # read-only page right after it
             self.HOLE = 0x22000         # unmapped
             self.DATA_RW2 = 0x23000     # rw page after the hole
-        # small regions right after rw2: a 3-byte read-only page, 0x40 writable bytes, a 2-byte hole,
-        # 0x40 writable bytes: one wide access can touch three regions at once
+        # small regions right after rw2: a 2-byte read-only page, 0x40 writable bytes, a 1-byte hole,
+        # 0x40 writable bytes: one 32/64-bit access can touch three regions at once
         self.TINY_RO = self.DATA_RW2 + 0x1000
-        self.RW3 = self.TINY_RO + 3
+        self.RW3 = self.TINY_RO + 2
         self.TINY_HOLE = self.RW3 + 0x40
-        self.RW4 = self.TINY_HOLE + 2
+        self.RW4 = self.TINY_HOLE + 1
 
 SUPPORTED_OPS = set("""+ * ^ & | - >> << a>> >>> <<< / % udiv umod sdiv smod ** parity cntleadzeros
 cnttrailzeros == <u <=u <s <=s FLAG_EQ FLAG_EQ_AND FLAG_EQ_CMP FLAG_SIGN_SUB FLAG_SIGN_ADD FLAG_ADD_CF
@@ -343,7 +343,7 @@ def interesting_values(rng, bits, L):
 def make_prog(spec, rng, pool, n_instr, with_loop=False, fault_bias=0.3, mode=None, soft_int=False):
     """mode: None (registers mostly inside the rw page, fault_bias of them on interesting values),
     "straddle" (every pointer a few bytes before a page boundary: rw->ro, ro->hole, hole->rw2),
-    "tiny" (every pointer a few bytes before a 3-byte read-only page or a 2-byte hole that sit between
+    "tiny" (every pointer a few bytes before a 2-byte read-only page or a 1-byte hole that sit between
     writable regions: a wide access covers writable / not writable / writable bytes),
     "split" (every register independently on a valid rw address, a read-only address or a hole:
     instructions that read one place and write another get one good and one bad operand)"""
@@ -404,7 +404,7 @@ def make_prog(spec, rng, pool, n_instr, with_loop=False, fault_bias=0.3, mode=No
             p.regs[r] = (rng.choice(ends) - rng.choice([1, 1, 2, 3, 3, 5, 7])) & m
     elif mode == "tiny":
         for r in spec.gprs:
-            p.regs[r] = (rng.choice([L.TINY_RO, L.TINY_RO, L.TINY_HOLE]) - rng.choice([0, 1, 1, 2, 3, 3, 5, 7])) & m
+            p.regs[r] = (rng.choice([L.TINY_RO, L.TINY_HOLE, L.TINY_HOLE]) - rng.choice([0, 1, 1, 2, 2, 3, 5, 6])) & m
     elif mode == "split":
         for r in spec.gprs:
             k = rng.random()
@@ -432,10 +432,10 @@ def make_prog(spec, rng, pool, n_instr, with_loop=False, fault_bias=0.3, mode=No
                (DATA_RW, PAGE_READ | PAGE_WRITE, fill, "rw"),
                (DATA_RO, PAGE_READ, fill[::-1], "ro"),
                (DATA_RW2, PAGE_READ | PAGE_WRITE, fill[7:] + fill[:7], "rw2"),
-               (L.TINY_RO, PAGE_READ, fill[11:14], "tiny_ro"),
+               (L.TINY_RO, PAGE_READ, fill[11:13], "tiny_ro"),
                (L.RW3, PAGE_READ | PAGE_WRITE, fill[20:20 + 0x40], "rw3"),
                (L.RW4, PAGE_READ | PAGE_WRITE, fill[90:90 + 0x40], "rw4")]
-    p.holes = [(L.HOLE, PAGE), (L.TINY_HOLE, 2)]
+    p.holes = [(L.HOLE, PAGE), (L.TINY_HOLE, 1)]
     return p
 
 
